@@ -476,6 +476,7 @@ func checkInitGradientValidation(c *Ctx, r *rend, rule string) {
 		key := "render.(*Renderer).initGradient"
 		in, _, fr := r.run(fn, map[string]*sym.Term{"cReg": sym.Atom("cReg", nil), "nReg": sym.Atom("nReg", nil)}, "ValidAlphaPremulColor", "DecodeGradient", "Init")
 		R.Use(rule)
+		root := fr
 		// the in-loop returns of false
 		var falseGuards []*sym.Term
 		var loopHeader = -1
@@ -516,6 +517,38 @@ func checkInitGradientValidation(c *Ctx, r *rend, rule string) {
 			if isFalse(ev.Args[0]) {
 				falseGuards = append(falseGuards, ev.Guard)
 			}
+		}
+		// every other way out builds the gradient: what initGradient returns is a refusal (checked below) or the
+		// verdict of Gradient.Init on this very call - never a remembered or defaulted answer
+		{
+			okRet := true
+			detail := ""
+			nRet := 0
+			// decided on an ARBITRARY Renderer state (every field unknown), not on the state Reset leaves: a shortcut
+			// that depends on what an earlier path left behind is not taken right after Reset
+			in2 := r.c.Interp()
+			h2 := r.c.newRendHooks(in2)
+			for _, o := range []string{"ValidAlphaPremulColor", "DecodeGradient", "Init"} {
+				h2.opaque[o] = true
+			}
+			_, _, root2 := in2.Run(fn, nil, nil)
+			_ = root
+			for _, ev := range in2.Events {
+				if ev.Kind != "return" || ev.Frame != root2 || len(ev.Args) == 0 || ev.Args[0] == nil {
+					continue
+				}
+				nRet++
+				for _, lf := range sym.DeepCases(ev.Args[0], 16) {
+					if sym.CondsContradict(lf.Conds) || isFalse(lf.Val) {
+						continue
+					}
+					if !(lf.Val.Op == "call" && lf.Val.Name == "Init") {
+						okRet = false
+						detail = "returns " + shortKey(lf.Val) + " under " + shortKey(ev.Guard)
+					}
+				}
+			}
+			R.Check(okRet && nRet > 0, key+"#verdict", pos, "false for an invalid stop, else the result of Gradient.Init for this call", detail)
 		}
 		if loopHeader < 0 || len(falseGuards) == 0 {
 			R.Bad(key+"#validation", pos, "one stop loop that returns false on an invalid stop", fmt.Sprintf("%d loops with failing returns, %d failing returns", len(stopLoops), len(falseGuards)))
